@@ -789,7 +789,7 @@ Definition exec_instr (st : wstate) (t : tid) (i : instr) (r : list instr) : wst
       let all := fold_left (fun c u => vjoin c (tclk (th st u))) (seq 0 (nthr st)) (tclk (th st t)) in
       (set_cont (upd_th st t (set_tclk (th st t) all)) t r, [EJoin])
   | IBms [] | ILeaves _ [] | IRun | IHandlers _ | IDels _ =>
-      (set_cont st t r, [EErr])          (* never at the head of a normalised continuation *)
+      (st, [EErr])          (* never at the head of a normalised continuation; the normalisation that follows handles it *)
   end.
 
 (** ** End of a step: normalise; command completion; thread exit sequence *)
